@@ -109,8 +109,46 @@ pub fn norm_block(b: &Block) -> Block {
     }
     b.c = b.c.iter().map(norm_block).collect();
     b.items = b.items.iter().map(|it| it.iter().map(norm_block).collect()).collect();
+    if b.k == "BL" || b.k == "OL" {
+        b.items = merge_leading_lists(b.items);
+    }
     b.rows = b.rows.iter().map(|r| r.iter().map(|c| norm_toks(c)).collect()).collect();
     b
+}
+
+/// C07: "an item that starts with a list is merged into the enclosing list".  The items of the leading
+/// list take the item's place and what follows that list belongs to the last of them; a leading list
+/// of empty items carries nothing, the item is then what follows it.  (Applied to the intended and to
+/// the observed document alike.)
+fn merge_leading_lists(items: Vec<Vec<Block>>) -> Vec<Vec<Block>> {
+    let mut out: Vec<Vec<Block>> = vec![];
+    for it in items {
+        let mut it = it;
+        loop {
+            let leading = it.first().map(|f| f.k == "BL" || f.k == "OL").unwrap_or(false);
+            if !leading {
+                out.push(it);
+                break;
+            }
+            let inner = it[0].items.clone(); // already merged: norm_block works bottom-up
+            let rest: Vec<Block> = it[1..].to_vec();
+            if inner.iter().all(|x| x.is_empty()) {
+                it = rest;
+                if it.is_empty() {
+                    out.push(it);
+                    break;
+                }
+                continue;
+            }
+            let at = out.len();
+            out.extend(inner);
+            if let Some(last) = (at..out.len()).rev().find(|i| !out[*i].is_empty()) {
+                out[last].extend(rest);
+            }
+            break;
+        }
+    }
+    out
 }
 
 pub fn norm_doc(d: &Doc) -> Doc {
